@@ -115,20 +115,21 @@ theorem c02_dup_qos0 (cfg : Cfg) (proto : Nat) (ops : List Op) (c u mid : Nat) (
     · intro c u mid d h; simp [S.init] at h
   exact this c u mid d
 
-/-! ### DUP discipline: the two statements below were FALSE as originally written.
+/-! ### DUP discipline
 
-Witness (kernel-checked below): `dcfg := { clean := 0 }`, proto 4,
-`dops := [publish q1, publish q1, connect, send [error], rx CONNACK(0), reconnect, rx CONNACK(0)]`.
-Both messages are published while disconnected (state `publish`, never handed). On the first CONNACK the
-retransmission loop of `_handle_connack` hands message 0, the write fails and closes the socket
-(`loop_write` → `_loop_rc_handle` → `_sock_close`, return code ignored by the loop), and the loop goes on:
-message 1 is marked `wait_for_puback` (and counted in flight) although `_send_publish` returns NO_CONN and
-nothing is handed to any connection. `reconnect()` then sets DUP on it (`wait_for_puback` → dup), and the next
-CONNACK sends it with DUP=1 as its very FIRST transmission: log entry 22 is `qPublish 2 1 2 1 true` with no
-earlier `qPublish _ 1 ..`; after the first 6 ops the stored message (info 1) has dup = true and was never
-handed. The same happens in `_update_inflight`, and when the socket is closed by a queued DISCONNECT being
-flushed inside those loops. The history is conforming (`dops_conf`), so conformance alone does not repair the
-statements. -/
+History of these two statements. With the code as first modelled they were FALSE even for a conforming broker
+(defect F26): after a failed write had closed the socket inside the retransmission loop of `_handle_connack`
+(or inside `_update_inflight`), the loop went on and marked further messages `wait_for_puback` / `wait_for_pubrec`
+although `_send_publish` returned NO_CONN and nothing was handed to any connection; `reconnect()` then set DUP on
+them and the next CONNACK sent them with DUP=1 as their very FIRST transmission. The witness was
+`dcfg := { clean := 0 }`, proto 4,
+`dops := [publish q1, publish q1, connect, send [error], rx CONNACK(0), reconnect, rx CONNACK(0)]`
+(conforming: `dops_conf`), where log entry 22 was `qPublish 2 1 2 1 true` with no earlier `qPublish _ 1 ..`.
+An extra hypothesis ("every stored message in a waiting state has been handed") had to be assumed.
+
+The repaired loops stop with NO_CONN as soon as the socket is gone, so that hypothesis is now a THEOREM
+(`c02_wait_handed`) and both statements hold for every conforming history. The run `dops` is kept as a regression
+witness (kernel-checked): the first transmission of message 1 (log entry 22) now carries DUP=0. -/
 
 def dcfg : Cfg := { clean := 0 }
 def dops : List Op :=
@@ -140,73 +141,92 @@ def notUid (u : Nat) : Ev → Bool
   | _ => true
 
 theorem dops_conf : confRun (S.init dcfg 4 t0) dops = true := by decide +kernel
-theorem dops_at22 : (runFrom dcfg 4 dops).log[22]? = some (.qPublish 2 1 2 1 true) := by decide +kernel
+/-- regression (F26 repaired): the first PUBLISH of message 1 is sent with DUP=0 … -/
+theorem dops_at22 : (runFrom dcfg 4 dops).log[22]? = some (.qPublish 2 1 2 1 false) := by decide +kernel
+/-- … and it is indeed its first transmission -/
 theorem dops_before22 : ((runFrom dcfg 4 dops).log.take 22).all (notUid 1) = true := by decide +kernel
+/-- regression (F26 repaired): after the failed retransmission pass and the reconnect, message 1 (never handed)
+is still in state `publish` with DUP=0 -/
 theorem dops6_msg : (runFrom dcfg 4 (dops.take 6)).out[1]? =
-    some { mid := 2, qos := 1, state := .publish, dup := true, retain := false, topic := [116], payload := [], info := 1 } := by
+    some { mid := 2, qos := 1, state := .publish, dup := false, retain := false, topic := [116], payload := [], info := 1 } := by
   decide +kernel
 theorem dops6_log : (runFrom dcfg 4 (dops.take 6)).log.all (notUid 1) = true := by decide +kernel
 
-/-- the original statement of `c02_dup_only_after_handed` (no hypotheses) is false -/
-theorem c02_dup_only_after_handed_orig_false :
+/-! The conformance hypothesis `hconf` cannot be dropped: a PUBREC naming a message still in state `publish`
+(never handed) moves it to `wait_for_pubcomp`, and a clean-session reconnect then sets DUP on it.
+Witness (kernel-checked): `ncfg := { clean := 1 }`, proto 4,
+`nops := [publish q2 (no connection), connect, rx PUBREC(1), reconnect, rx CONNACK(0)]`:
+log entry 17 is `qPublish 2 0 1 2 true`, the first PUBLISH of message 0; after the first 4 ops the stored
+message has DUP=1 and was never handed. -/
+
+def ncfg : Cfg := { clean := 1 }
+def nops : List Op :=
+  [.publish 2 [116] [] false, .connect true, .rx (.pkt (.pubrec 1)) true, .reconnect true,
+   .rx (.pkt (.connack false 0)) true]
+
+theorem nops_nonconf : confRun (S.init ncfg 4 t0) nops = false := by decide +kernel
+theorem nops_at17 : (runFrom ncfg 4 nops).log[17]? = some (.qPublish 2 0 1 2 true) := by decide +kernel
+theorem nops_before17 : ((runFrom ncfg 4 nops).log.take 17).all (notUid 0) = true := by decide +kernel
+theorem nops4_msg : (runFrom ncfg 4 (nops.take 4)).out[0]? =
+    some { mid := 1, qos := 2, state := .publish, dup := true, retain := false, topic := [116], payload := [], info := 0 } := by
+  decide +kernel
+theorem nops4_log : (runFrom ncfg 4 (nops.take 4)).log.all (notUid 0) = true := by decide +kernel
+
+/-- `c02_dup_only_after_handed` without the conformance hypothesis is false -/
+theorem c02_dup_only_after_handed_nonconf_false :
     ¬ (∀ (cfg : Cfg) (proto : Nat) (ops : List Op) (i : Nat) (c u mid q : Nat),
       let log := (runFrom cfg proto ops).log
       log[i]? = some (.qPublish c u mid q true) →
         ∃ j, j < i ∧ ∃ c' mid' q' d', log[j]? = some (.qPublish c' u mid' q' d')) := by
   intro h
-  obtain ⟨j, hj, c', mid', q', d', hlog⟩ := h dcfg 4 dops 22 2 1 2 1 dops_at22
-  have hmem : Ev.qPublish c' 1 mid' q' d' ∈ (runFrom dcfg 4 dops).log.take 22 := by
+  obtain ⟨j, hj, c', mid', q', d', hlog⟩ := h ncfg 4 nops 17 2 0 1 2 nops_at17
+  have hmem : Ev.qPublish c' 0 mid' q' d' ∈ (runFrom ncfg 4 nops).log.take 17 := by
     rw [List.mem_iff_getElem?]
     exact ⟨j, by rw [List.getElem?_take, if_pos hj]; exact hlog⟩
-  have := List.all_eq_true.1 dops_before22 _ hmem
+  have := List.all_eq_true.1 nops_before17 _ hmem
   simp [notUid] at this
 
-/-- the original statement of `c02_fresh_no_dup` (no hypotheses) is false -/
-theorem c02_fresh_no_dup_orig_false :
+/-- `c02_fresh_no_dup` without the conformance hypothesis is false -/
+theorem c02_fresh_no_dup_nonconf_false :
     ¬ (∀ (cfg : Cfg) (proto : Nat) (ops : List Op) (m : OutMsg),
       let s := runFrom cfg proto ops
       m ∈ s.out → (∀ c mid q d, Ev.qPublish c m.info mid q d ∉ s.log) → m.dup = false) := by
   intro h
-  have := h dcfg 4 (dops.take 6) _ (List.mem_of_getElem? dops6_msg) (by
+  have := h ncfg 4 (nops.take 4) _ (List.mem_of_getElem? nops4_msg) (by
     intro c mid q d hmem
-    have := List.all_eq_true.1 dops6_log _ hmem
+    have := List.all_eq_true.1 nops4_log _ hmem
     simp [notUid] at this)
   simp at this
 
+/-- a stored message in a waiting state (wait_for_puback / wait_for_pubrec) has been handed to a connection
+(this is what defect F26 violated; it used to be a hypothesis of the two theorems below) -/
+theorem c02_wait_handed (cfg : Cfg) (proto : Nat) (ops : List Op) (m : OutMsg)
+    (hconf : confRun (S.init cfg proto t0) ops = true) :
+    let s := runFrom cfg proto ops
+    m ∈ s.out → (m.state = .waitPuback ∨ m.state = .waitPubrec) → ∃ c mid q d, Ev.qPublish c m.info mid q d ∈ s.log := by
+  intro s hm hs
+  exact (dupK_run cfg proto ops hconf).2.2.2 m hm hs
+
 /-- DUP=1 only on a PUBLISH whose message instance had been handed to a connection before -/
--- STATEMENT CHANGED: two hypotheses added (see the witness above, `c02_dup_only_after_handed_orig_false`).
--- `hwait` says that the defect does not manifest in this history: at every prefix, a stored message that is
--- marked in flight (wait_for_puback / wait_for_pubrec) has really been handed to some connection. `hconf`
--- (conforming broker) is needed as well: a PUBREC naming a message still in state `publish` (never handed)
--- moves it to wait_for_pubcomp, and a clean-session reconnect then sets DUP on it.
--- The conclusion is unchanged.
+-- STATEMENT CHANGED with respect to the very first version: the hypothesis `hconf` (conforming broker) is added;
+-- it is necessary (witness: `c02_dup_only_after_handed_nonconf_false`). The second hypothesis `hwait` that the
+-- defective code needed is gone (F26 repaired). The conclusion is unchanged.
 theorem c02_dup_only_after_handed (cfg : Cfg) (proto : Nat) (ops : List Op) (i : Nat) (c u mid q : Nat)
-    (hconf : confRun (S.init cfg proto t0) ops = true)
-    (hwait : ∀ pre post, ops = pre ++ post → ∀ m ∈ (runFrom cfg proto pre).out,
-      (m.state = .waitPuback ∨ m.state = .waitPubrec) →
-        ∃ c mid q d, Ev.qPublish c m.info mid q d ∈ (runFrom cfg proto pre).log) :
+    (hconf : confRun (S.init cfg proto t0) ops = true) :
     let log := (runFrom cfg proto ops).log
     log[i]? = some (.qPublish c u mid q true) → ∃ j, j < i ∧ ∃ c' mid' q' d', log[j]? = some (.qPublish c' u mid' q' d') := by
   intro log h
-  have k := dupK_run cfg proto ops [] (by simpa [runFrom, S.run] using hconf)
-    (fun p q e => hwait p q (by simpa using e)) (by simpa [runFrom, S.run] using DupK.init cfg proto t0)
-  simp only [List.nil_append] at k
-  exact k.2.2 i c u mid q h
+  exact (dupK_run cfg proto ops hconf).1.2.2 i c u mid q h
 
 /-- a stored message never handed to any connection has DUP=0 -/
--- STATEMENT CHANGED: same two hypotheses added, for the same reason (witness: `c02_fresh_no_dup_orig_false`,
--- the stored message with info 1 after the first 6 ops of `dops`).
+-- STATEMENT CHANGED with respect to the very first version: hypothesis `hconf` added, necessary
+-- (witness: `c02_fresh_no_dup_nonconf_false`); the former hypothesis `hwait` is gone (F26 repaired).
 theorem c02_fresh_no_dup (cfg : Cfg) (proto : Nat) (ops : List Op) (m : OutMsg)
-    (hconf : confRun (S.init cfg proto t0) ops = true)
-    (hwait : ∀ pre post, ops = pre ++ post → ∀ m ∈ (runFrom cfg proto pre).out,
-      (m.state = .waitPuback ∨ m.state = .waitPubrec) →
-        ∃ c mid q d, Ev.qPublish c m.info mid q d ∈ (runFrom cfg proto pre).log) :
+    (hconf : confRun (S.init cfg proto t0) ops = true) :
     let s := runFrom cfg proto ops
     m ∈ s.out → (∀ c mid q d, Ev.qPublish c m.info mid q d ∉ s.log) → m.dup = false := by
   intro s hm hno
-  have k := dupK_run cfg proto ops [] (by simpa [runFrom, S.run] using hconf)
-    (fun p q e => hwait p q (by simpa using e)) (by simpa [runFrom, S.run] using DupK.init cfg proto t0)
-  simp only [List.nil_append] at k
+  have k := (dupK_run cfg proto ops hconf).1
   cases hd : m.dup with
   | false => rfl
   | true =>
@@ -285,7 +305,7 @@ theorem c12_qos0_not_refused (s : S) (topic payload : Bytes) (retain : Bool) :
     have hrc : sp.2 = rcSuccess ∨ sp.2 = rcNoConn ∨ sp.2 = rcConnLost := by
       rw [hX]; exact sendPublish_rc ..
     have hlog : sp.1.log = s.log ++ evsOf X sp.1 := by
-      rw [hX, ← hXlog]; exact (sendPublish_same _ _ _ _ _ _ _ _ _ _).2.2.2.2.2.2
+      rw [hX, ← hXlog]; exact (sendPublish_same _ _ _ _ _ _ _ _ _ _).2.2.2.2.2.2.2
     have hqr := sendPublish_qr X (midNext s.lastMid) topic payload 0 retain false
         (some s.infos.length) true (some s.infos.length)
     rw [← hX] at hqr
